@@ -24,6 +24,14 @@ Fixpoint hx (s : String.string) : list byte :=
   | _ => []
   end.
 
+(* string literals given to hx are read as strings without String being imported *)
+Declare Scope hx_scope.
+String Notation String.string String.string_of_list_byte String.list_byte_of_string : hx_scope.
+Arguments hx s%hx_scope.
+
+(* long byte strings are written by the harness as lists of numbers (string literals parse slowly) *)
+Definition bl (l : list N) : list byte := map nb l.
+
 Definition byte_eqb (a b : byte) : bool := Byte.eqb a b.
 Definition bytes_eqb (a b : list byte) : bool := list_eqb Byte.eqb a b.
 
